@@ -339,7 +339,7 @@ def run_impl(cfg, ops):
                     if c._sock is not None:
                         # the peer is gone; the client finds out when it next writes.  select() reports the socket
                         # writable, so the event loop calls loop_write() right away
-                        ev.append([12, 0, 0, 0, 0, 0])
+                        ev.append([12, 1, 0, 0, 0, 0])
                         c.socks[-1].send_plan = AlwaysFail()
                         c.loop_write()
                         flush_wire()
